@@ -324,7 +324,10 @@ def run_child(item):
         env["PYTHONHASHSEED"] = str(hs)
         env["NV_KEEP_HASHSEED"] = "1"
         try:
-            p = subprocess.run([sys.executable, os.path.abspath(__file__), "--child", jp], capture_output=True, text=True, timeout=900, env=env)
+            p = subprocess.run([sys.executable, os.path.abspath(__file__), "--child", jp], capture_output=True, text=True, timeout=2400, env=env)
+        except subprocess.TimeoutExpired:
+            res.append(dict(timed_out=True))      # reported as a cap, never as a verdict
+            continue
         finally:
             os.unlink(jp)
         line = next((l for l in p.stdout.splitlines() if l.startswith("RESULT ")), None)
@@ -362,11 +365,17 @@ def run(tier, seed):
                   L=4, Lc=4, cap=800 if tier == "quick" else 4000, few=(tier == "quick" and i % 9 != seed % 9 and not p["label"].startswith("SHADOW")), pairs=(tier == "thorough")) for i, p in enumerate(progs_)]
     stats = dict(programs=len(items), accepted=0, children=0, scenarios=0, c_programs_built_and_run=0, recompilations_with_different_c_text=0, recompilations_with_identical_c_text=0, canonical_c_text_varies_between_children=0,
                  hash_seeds=cover, enum_pair_orders_targeted=n_targets, enum_pair_orders_covered=n_covered)
-    for idx, r in pmap(run_child, items, timeout=3000, chunksize=1, stop=ck.enough):
+    for idx, r in pmap(run_child, items, timeout=3000 if tier == "quick" else 40000, chunksize=1, stop=ck.enough):
         if "harness_error" in r or "harness_timeout" in r:
             harness_fail("%s on %s" % (r, items[idx]["label"]))
         it = items[idx]
-        ch = r["children"]
+        pairs = [(c, spec) for c, spec in zip(r["children"], it["children"]) if not c.get("timed_out")]
+        if len(pairs) < len(r["children"]):
+            ck.cap("%s: %d child interpreter(s) exceeded 40 minutes and were dropped" % (it["label"], len(r["children"]) - len(pairs)))
+        if not pairs or r["children"][0].get("timed_out"):
+            continue
+        ch = [c for c, _ in pairs]
+        it = dict(it, children=[spec for _, spec in pairs])
         stats["children"] += len(ch)
         v0 = ch[0]["verdict"]
         if v0[0] == "accepted":
@@ -409,7 +418,7 @@ def replay(path):
     r = run_child(dict(src=d["src"], argv=d["argv"], children=[(0, ""), (d.get("hashseed", 0), d.get("pre", ""))], L=4, Lc=4, cap=4000, few=False, pairs=False))
     bad = False
     if "children" in r:
-        ch = r["children"]
+        ch = [c for c in r["children"] if not c.get("timed_out")]
         bad = any(c["diffs"] for c in ch) or any(c["verdict"] != ch[0]["verdict"] or c["table"] != ch[0]["table"] or (c["cdigest"] != ch[0]["cdigest"] and c["reps"] == ch[0]["reps"]) for c in ch)
         for c in ch:
             print(c["verdict"], c["diffs"][:2])
